@@ -54,8 +54,12 @@ Fixpoint all2 {A B} (f : A -> B -> bool) (a : list A) (b : list B) : bool :=
   | _, _ => false
   end.
 
-Definition uobs := (nat * lobs * list gobs)%type.      (* len, list(prim), prim[0..len] *)
-Definition bobs := (nat * lobs * lobs)%type.           (* len, list(shapes()), list(bound) *)
+Definition zobs := list (Z * gobs).                     (* prim[z] for negative / out-of-range z *)
+Definition uobs := (nat * lobs * list gobs * zobs)%type.      (* len, list(prim), prim[0..len], prim[z] *)
+Definition bobs := (nat * lobs * lobs * zobs)%type.           (* len, list(shapes()), list(bound), bound[z] *)
+
+Definition zobs_ok (q : iprim) (zo : zobs) : bool :=
+  forallb (fun e => gobs_ok (getitem_z q (fst e)) (snd e)) zo.
 
 Definition case := (kind * list csrc * list cinput * option N * stream *
                     list (list Z) * list (N * N) * nat * option (uobs * bobs))%type.
@@ -64,13 +68,14 @@ Definition case_ok (c : case) : bool :=
   let '(kd, srcs, ins, mat, s, m, matmap, code, seen) := c in
   match create kd (map (raw_of srcs) ins) mat s, seen with
   | Raise e, None => Nat.eqb code (exn_code e)
-  | Ok p, Some ((ulen, uiter, ugets), (blen, bshapes, blegacy)) =>
+  | Ok p, Some ((ulen, uiter, ugets, uz), (blen, bshapes, blegacy, bz)) =>
       let u := unbound p in
       let b := bind p m matmap in
       Nat.eqb code 0 &&
       Nat.eqb (ilen u) ulen && lobs_ok (iter u) uiter &&
       all2 (fun i o => gobs_ok (getitem u i) o) (seq 0 (S (ilen u))) ugets &&
-      Nat.eqb (ilen b) blen && lobs_ok (shapes b) bshapes && lobs_ok (iter b) blegacy
+      zobs_ok u uz &&
+      Nat.eqb (ilen b) blen && lobs_ok (shapes b) bshapes && lobs_ok (iter b) blegacy && zobs_ok b bz
   | _, _ => false
   end.
 
